@@ -425,6 +425,13 @@ def _timer_run(run, s, start_day, ndays, rng, with_app, zone):
     CLK.reset()
     t0 = local_epoch(start_day) + rng.choice([0, 1, 3600 * 5 + 17, 86399])
     CLK.now = float(t0)
+    if rng.random() < 0.3:
+        # a clock that moves while the code runs (every reading of it takes a few milliseconds), started a moment before
+        # midnight: date and time of day are two readings, and midnight may fall between them
+        CLK.tick = rng.choice([0.001, 0.004])
+        t0 = float(local_epoch(start_day) + 86400) - CLK.tick * (rng.randrange(0, 8) + 0.5)
+        CLK.now = t0
+        run.count("timer_runs_on_a_clock_that_moves_between_readings")
     wit = {"schedule": s.describe(), "start": str(start_day), "days": ndays, "with_app": bool(with_app), "time_zone": zone or "UTC"}
     try:
         so, app = build(s, with_app)
